@@ -95,18 +95,14 @@ func (h *harness) judge(entry string, in []byte, r resp) string {
 		if strings.Contains(r.out, "out of memory") || strings.Contains(r.out, "cannot allocate memory") {
 			kind = "alloc:" + entry
 			// the failing allocation is identified from the stack of the fatal error
-			switch {
-			case strings.Contains(r.extra, "reflect.MakeMapWithSize") && strings.Contains(r.extra, "encoding/gob.(*Decoder).decodeMap"):
-				key["cause"] = "gob_map_size" // map element count read from the gob stream
-			case strings.Contains(r.extra, "encoding/gob."):
-				key["cause"] = "gob_other"
-			}
+			key["cause"] = causeOf(r.extra)
 			if m := reRequested.FindStringSubmatch(r.out); m != nil {
 				if n, err := strconv.ParseUint(m[1], 10, 64); err == nil {
 					key["requested_bytes"] = n
 				}
 			}
 		}
+		h.s.Count("died:" + entry + ":cause=" + fmt.Sprint(key["cause"]))
 		h.s.Violate(kit.Violation{Kind: kind, What: "the process running the parser died (fatal error; address space limited to " + strconv.Itoa(asLimit>>30) + " GiB)",
 			Input: mkProbe(entry, in), Expected: "value or error, memory proportional to the input", Observed: r.out, Key: key})
 		return "died"
@@ -115,9 +111,16 @@ func (h *harness) judge(entry string, in []byte, r resp) string {
 		h.maxA[entry] = [2]uint64{r.alloc, uint64(len(in))}
 	}
 	if r.alloc > allocA*uint64(len(in))+allocB {
+		// name the allocation site: the input once more in a profiling child
+		site := h.diagnose(entry, in)
+		cause := causeOf(site)
+		h.s.Count("overbudget:" + entry + ":cause=" + cause)
+		if len(site) > 600 {
+			site = site[:600]
+		}
 		h.s.Violate(kit.Violation{Kind: "alloc:" + entry, What: "allocation volume out of proportion to the input", Input: mkProbe(entry, in),
-			Expected: fmt.Sprintf("<= %d*%d+%d bytes", allocA, len(in), allocB), Observed: fmt.Sprint(r.alloc),
-			Key: map[string]interface{}{"entry": entry, "fatal": false, "cause": "unknown", "allocated_bytes": r.alloc}})
+			Expected: fmt.Sprintf("<= %d*%d+%d bytes", allocA, len(in), allocB), Observed: fmt.Sprintf("%d bytes; largest site %s", r.alloc, site),
+			Key: map[string]interface{}{"entry": entry, "fatal": false, "cause": cause, "allocated_bytes": r.alloc}})
 	}
 	if r.status == "panic" {
 		h.s.Violate(kit.Violation{Kind: "panic:" + entry, What: "parser panicked", Input: mkProbe(entry, in), Expected: "value or error", Observed: r.out,
